@@ -70,6 +70,43 @@ TEXT = {
               "applicable directory is found). Partial: the real stack-and-skip-list walk is tied to this recursion by the discover stream (ordered result lists on real trees) and by "
               "the specification oracle, not by proof."),
         note=COMMON_NOTE + "Modelled: the filesystem (read_dir order is recorded and fed to the model), find_file."),
+    "C04": dict(
+        design_ref="§7.0, §7 C04",
+        technique="Lean 4 invariant proof by induction over every script / child behaviour / race resolution of an executable model of the job task; trace-set membership against the real start_job under a paused clock",
+        text=("Theorem c04: for every fix configuration, behaviour script, operation script and race resolution, every reachable state of the job-task model has at most one "
+              "spawned-and-unreaped child and it is the one the task holds. The model (all controls, timer, three queues, flags, parked select, closed queues, scripted children) is tied "
+              "to crates/supervisor by the job-sim stream: the real trace must be a member of the model's set of admissible traces."),
+        note=COMMON_NOTE + "Modelled: tokio mpsc/select!/paused clock, process-wrap child (scripted child through the public spawn hook), SeqCst reading of the Relaxed atomics."),
+    "C06": dict(
+        design_ref="§7.0, §7 C06",
+        technique="Lean 4 step theorems on the job-task model (signal logged in the handling step, timer armed for now+grace, expiry message is the only candidate at expiry, normal controls held back, continuation clears the restart slot) plus kernel-checked witnesses; trace-set membership against the real start_job",
+        text=("Theorems: graceful_stop_step / graceful_restart_step (signal in the same step, timer = now + grace with the control's flag, no kill), timer_not_early, timer_fires (at expiry the "
+              "timer's message precedes every queue), held_back / c10_priority (no normal control while a timer is armed), expiry_kills (kill, reap, finished, flag raised), "
+              "continue_clears with extra_respawn_today / no_extra_respawn_fixed (exactly one replacement). Bounded-response statements are for the eager scheduler (= the paused-clock "
+              "runtime of the harness)."),
+        note=COMMON_NOTE + "Modelled: tokio mpsc/select!/paused clock, process-wrap child (scripted child through the public spawn hook), SeqCst reading of the Relaxed atomics."),
+    "C07": dict(
+        design_ref="§7.0, §7 C07",
+        technique="Lean 4 invariant proofs (no issued flag is ever lost; every waiter of a raised flag or a gone job is resolved) by the SimInv induction principle over all scripts and races; trace-set membership against the real start_job with hand-polled tickets",
+        text=("Theorems: c07_noLost (every flag ever issued is queued, raised, or held by the timer / on_end / restart slot, and the restart flag lives exactly as long as its timer — for "
+              "API-shaped sends), c07_tickets (with the waker list: a ticket whose flag is raised, or whose job is gone, has resolved — any number of waiters and clones), c10_ran (a raised "
+              "flag belongs to a control recv has returned), and the kernel-checked witnesses that the pre-repair code violated both. Partial: 'a held flag is eventually raised' is "
+              "timer_fires + expiry_kills + the wait branch under the eager scheduler; a wait-for-end on a child that never ends legitimately never resolves."),
+        note=COMMON_NOTE + "Modelled: tokio mpsc/select!/paused clock, process-wrap child (scripted child through the public spawn hook), SeqCst reading of the Relaxed atomics."),
+    "C09": dict(
+        design_ref="§7.0, §7 C09",
+        technique="Lean 4 refinement proof: every control arm and the wait branch of the job-task model is a step of the documented state machine (specStep / specExit) with the same effects and ticket moment; trace-set membership against the real start_job, state observed by run markers",
+        text=("Theorems handle_refines (all fourteen controls incl. the internal continuation) and waitBranch_refines: abs (handle s m) = specStep (abs s) m.ctl, the non-ticket log grows by "
+              "exactly the spec's effects, the flag is raised iff the spec says now; spawn_refines (hook called once right before each spawn, previous = the finished previous run). The "
+              "documented no-ops and 'wait-for-end resolves at once when nothing runs' are read off the spec."),
+        note=COMMON_NOTE + "Modelled: tokio mpsc/select!/paused clock, process-wrap child (scripted child through the public spawn hook), SeqCst reading of the Relaxed atomics."),
+    "C10": dict(
+        design_ref="§7.0, §7 C10",
+        technique="Lean 4 invariant proofs over all scripts and races: per queue taken ++ queued = sent (FIFO, exactly once), recv's candidate respects urgent > high > normal and the armed timer, a raised flag belongs to a control already returned; trace-set membership against the real start_job",
+        text=("Theorems c10_fifo (every configuration: nothing lost, duplicated or reordered within a priority), c10_priority (biased receive: normal only with no timer and nothing urgent/high "
+              "pending, high only with nothing urgent pending, the timer's message only after the grace period), c10_ran (awaiting the last ticket implies every earlier control of that "
+              "queue has been taken), and c10_priority_fails_today as the witness for the unbiased select."),
+        note=COMMON_NOTE + "Modelled: tokio mpsc/select!/paused clock, process-wrap child (scripted child through the public spawn hook), SeqCst reading of the Relaxed atomics."),
 }
 
 NOT_APPLICABLE = {}
